@@ -161,6 +161,12 @@ func main() {
 		}
 		return nil
 	})
+	// every field the server's tls.Config is given (in its literal or by a later assignment) and every method called on it
+	tlsFields, tlsCalls := tlsConfigUse(funcDecl(svc, "createServer"))
+	fmt.Fprintf(&b, "/-- createServer: all fields set on the server's tls.Config, and all methods called on it -/\ndef tlsConfigFields : List String := %s\ndef tlsConfigCalls : List String := %s\n", leanList(tlsFields), leanList(tlsCalls))
+	// every switch over a rules.Result outside the rules packages: which enumerators it names, whether it has a default
+	enum, sws := resultSwitches(repo)
+	fmt.Fprintf(&b, "/-- rules/service.go: the enumerators of rules.Result; and every switch over them outside package rules: (where, enumerators named, has a default) -/\ndef rulesResults : List String := %s\ndef resultSwitches : List (String × List String × Bool) := [%s]\n\n", leanList(enum), strings.Join(sws, ", "))
 	fmt.Fprintf(&b, "/-- services/api/grpc/service.go, createServer: fields of the server's tls.Config -/\ndef tlsClientAuth : Option String := %s\ndef tlsMinVersion : Option String := %s\ndef tlsClientCAsSet : Bool := %s\n", clientAuth, minVersion, clientCAs)
 	fmt.Fprintf(&b, "/-- the TLS credentials are appended to the options handed to the one and only grpc.NewServer -/\ndef grpcCredsInstalled : Bool := %v\ndef grpcNewServerCalls : Nat := %d\ndef otherGrpcServers : List String := %s\n",
 		credsAppended && newServerUsesOpts, allNewServer, leanList(otherServers))
@@ -328,4 +334,141 @@ func panicSites(repo string) []string {
 	}
 	sort.Strings(out)
 	return out
+}
+
+// tlsConfigUse lists the fields set on any tls.Config built in fd (keys of the literal, later `v.X = …` assignments on a
+// variable holding it) and the methods called on such a variable.
+func tlsConfigUse(fd *ast.FuncDecl) (fields []string, calls []string) {
+	if fd == nil {
+		return nil, nil
+	}
+	vars := map[string]bool{}
+	isCfgLit := func(e ast.Expr) bool {
+		if u, ok := e.(*ast.UnaryExpr); ok {
+			e = u.X
+		}
+		cl, ok := e.(*ast.CompositeLit)
+		return ok && strings.HasSuffix(src(cl.Type), "tls.Config")
+	}
+	ast.Inspect(fd, func(n ast.Node) bool {
+		switch x := n.(type) {
+		case *ast.CompositeLit:
+			if strings.HasSuffix(src(x.Type), "tls.Config") {
+				for _, e := range x.Elts {
+					if kv, ok := e.(*ast.KeyValueExpr); ok {
+						fields = append(fields, src(kv.Key))
+					}
+				}
+			}
+		case *ast.AssignStmt:
+			for i, r := range x.Rhs {
+				if isCfgLit(r) && i < len(x.Lhs) {
+					vars[src(x.Lhs[i])] = true
+				}
+			}
+		case *ast.ValueSpec:
+			for i, r := range x.Values {
+				if isCfgLit(r) && i < len(x.Names) {
+					vars[x.Names[i].Name] = true
+				}
+			}
+		}
+		return true
+	})
+	ast.Inspect(fd, func(n ast.Node) bool {
+		switch x := n.(type) {
+		case *ast.AssignStmt:
+			for _, l := range x.Lhs {
+				if se, ok := l.(*ast.SelectorExpr); ok && vars[src(se.X)] {
+					fields = append(fields, se.Sel.Name)
+				}
+			}
+		case *ast.CallExpr:
+			if se, ok := x.Fun.(*ast.SelectorExpr); ok && vars[src(se.X)] {
+				calls = append(calls, se.Sel.Name)
+			}
+		}
+		return true
+	})
+	sort.Strings(fields)
+	sort.Strings(calls)
+	return fields, calls
+}
+
+// resultSwitches: the enumerators of rules.Result, and for every switch statement outside rules/ (non-test sources) with a
+// case naming one of them: "(\"file:func\", [names], hasDefault)".
+func resultSwitches(repo string) (enum []string, out []string) {
+	if f := parse(filepath.Join(repo, "rules/service.go")); f != nil {
+		ast.Inspect(f, func(n ast.Node) bool {
+			gd, ok := n.(*ast.GenDecl)
+			if !ok || gd.Tok.String() != "const" {
+				return true
+			}
+			isResult := false
+			for _, sp := range gd.Specs {
+				vs := sp.(*ast.ValueSpec)
+				if vs.Type != nil {
+					isResult = src(vs.Type) == "Result"
+				} else if len(vs.Values) > 0 {
+					isResult = false
+				}
+				if isResult {
+					for _, nm := range vs.Names {
+						enum = append(enum, nm.Name)
+					}
+				}
+			}
+			return true
+		})
+	}
+	isEnum := map[string]bool{}
+	for _, e := range enum {
+		isEnum["rules."+e] = true
+	}
+	filepath.Walk(repo, func(p string, info os.FileInfo, err error) error {
+		if err != nil || info.IsDir() || !strings.HasSuffix(p, ".go") || strings.HasSuffix(p, "_test.go") {
+			return nil
+		}
+		rel, _ := filepath.Rel(repo, p)
+		if strings.HasPrefix(rel, "rules/") || strings.HasPrefix(rel, "testing/") || strings.Contains(rel, "/mock/") {
+			return nil
+		}
+		f := parse(p)
+		if f == nil {
+			return nil
+		}
+		for _, d := range f.Decls {
+			fd, ok := d.(*ast.FuncDecl)
+			if !ok || fd.Body == nil {
+				continue
+			}
+			ast.Inspect(fd.Body, func(n ast.Node) bool {
+				sw, ok := n.(*ast.SwitchStmt)
+				if !ok {
+					return true
+				}
+				var names []string
+				hasDefault := false
+				for _, c := range sw.Body.List {
+					cc := c.(*ast.CaseClause)
+					if cc.List == nil {
+						hasDefault = true
+					}
+					for _, e := range cc.List {
+						if isEnum[src(e)] {
+							names = append(names, strings.TrimPrefix(src(e), "rules."))
+						}
+					}
+				}
+				if len(names) > 0 {
+					sort.Strings(names)
+					out = append(out, fmt.Sprintf("(%s, %s, %v)", leanStr(rel+":"+fd.Name.Name), leanList(names), hasDefault))
+				}
+				return true
+			})
+		}
+		return nil
+	})
+	sort.Strings(out)
+	return enum, out
 }
